@@ -7,8 +7,9 @@ package harness
 // shapes: which construct sits where is drawn from the seed.
 //
 // Everything is an int; inner loops are bounded by counters; a `throw` is
-// always caught in the same function (a throw that unwinds across a call is a
-// known defect of the tree outside the claimed properties).
+// always caught in the same function (a throw that unwinds across a call was a
+// defect of the pinned tree, repaired by 2fae662; the hand-written workloads of
+// C09, C10 and C16 cover cross-frame throws).
 
 import (
 	"fmt"
